@@ -143,6 +143,15 @@ def run_window(case):
       w[0] = 12345.0
       if wf(size, *args)[0] == 12345.0:
         return bad("window:aliasing", "the returned list is shared with later calls", None, None, nt)
+      keep = list(s)
+      s[0] = 12345.0
+      s[-1] /= 2
+      for other in (name, "hann", "rect", "bartlett", "blackman", "cos"):
+        oargs = args if other == name else ()
+        again = wsymm[other](size, *oargs)
+        if again is s or (other == name and again != keep) or 12345.0 in again or (size == 1 and again != [1.0]):
+          return bad("window:aliasing", "a symmetric window list changed in place by its caller is shared with later "
+                     "calls (wsymm.%s(%d) after wsymm.%s(%d) was modified)" % (other, size, name, size), keep[:4], again[:4], nt)
   return R(None, nt, (base, size % 4))
 
 
